@@ -161,6 +161,15 @@ class Interp:
 _SQRT_PI = math.sqrt(math.pi)
 _erf = np.vectorize(math.erf, otypes=[float])
 
+def _bessel(kind, n, x):
+    """J_n / Y_n for integer n on a real array, via mpmath (30 digits, rounded to double)."""
+    import mpmath
+
+    fn = mpmath.besselj if kind == "j" else mpmath.bessely
+    with mpmath.workdps(30):
+        return np.vectorize(lambda t: float(fn(n, mpmath.mpf(float(t)))), otypes=[float])(np.asarray(x, dtype=float))
+
+
 _FUNCS = {
     "sqrt": (np.sqrt, lambda x: 0.5 / np.sqrt(x)),
     "exp": (np.exp, np.exp),
@@ -601,6 +610,25 @@ def evaluate(expr, ctx: Ctx, tol: Tol, comp=()) -> EV:
                 if np.any(1.0 - np.abs(np.real(a.v)) <= tol.margin * a.e):
                     raise Unstable(f"{e._name} at/near +-1")
             return it.func(a, f, df)
+        if isinstance(e, ufl.classes.BesselFunction):
+            # nu is an integer literal in the generated fragment; C computes jn/yn in double precision
+            nu_v = ops[0]
+            if not isinstance(nu_v, ScalarValue) or float(nu_v._value) != int(nu_v._value):
+                raise Unsupported("Bessel function of non-integer order")
+            nu = int(nu_v._value)
+            a = ev(ops[1], (), env)
+            if ctx.complex and np.any(np.imag(a.v) != 0):
+                raise Unsupported("Bessel function of a complex argument")
+            kind = {"cyl_bessel_j": "j", "cyl_bessel_y": "y"}.get(e._name)
+            if kind is None:
+                raise Unsupported(f"Bessel function {e._name}")
+            if kind == "y" and np.any(np.real(a.v) <= tol.margin * a.e):
+                raise Unstable("Bessel Y at/near a non-positive argument")
+            f = lambda x, n=nu: _bessel(kind, n, np.real(x))  # noqa: E731
+            df = lambda x, n=nu: 0.5 * (_bessel(kind, n - 1, np.real(x)) - _bessel(kind, n + 1, np.real(x)))  # noqa: E731
+            r = it.func(EV(np.real(a.v) + 0.0, a.e), f, df, ulps=16.0)
+            # libm's jn/yn are accurate in absolute, not relative, terms near the zeros of the function
+            return EV(r.v, r.e + 16.0 * it.u)
         if isinstance(e, ufl.classes.Atan2):
             a, b = ev(ops[0], (), env), ev(ops[1], (), env)
             if ctx.complex and (np.any(np.imag(a.v) != 0) or np.any(np.imag(b.v) != 0)):
